@@ -26,12 +26,18 @@ RULE = (
     "incommensurable constants and (ii) fitted Spline(damped)/Trend/KNeighbors/Chain/Vector(2,3)/CheckerBoard, over seeded random regions "
     "(different widths and heights, scales 1e-2..1e6, offsets up to 1e3 extents), shapes incl. 1xn, nx1, non-square, spacings dividing the "
     "extent or not, both adjust modes and registrations, 0..2 extra coordinates, explicit 1-D and 2-D coordinates (non-uniform), custom dims / "
-    "data names / class-level defaults, anisotropic sheared affine and monotone nonlinear projections, default region from the fitted data. "
+    "data names / class-level defaults, anisotropic sheared affine and monotone nonlinear projections, default region from the fitted data; "
+    "plus call histories on ONE gridder object (18 interleaved grid/profile/scatter calls in which dims, data_names, projection, region, "
+    "extra_coords and coordinates= are given in one call and omitted in the next, both registrations and adjust modes, refits on data with "
+    "another bounding box, explicit coordinate arrays edited in place between calls, every returned array overwritten before the next / an "
+    "identical call), each return judged against its own arguments and the defaults the gridder had when the workload created it. "
     "Non-trivial grid = n_north != n_east, >= 2 nodes per axis and a non-separable field (c != 0 for the analytic gridder); non-trivial profile "
     "= size >= 2 on a segment of positive length not parallel to an axis; non-trivial scatter = size >= 2; distinct = hash of gridder "
     "constants / class, arguments and output coordinates."
 )
 ASSUMPTIONS = [
+    "naming defaults (dims, extra_coords_name, data_names_defaults) a call must fall back to are those the gridder had when the workload "
+    "created it (for gridders the workload did not create: those in place when the call started); grid/profile/scatter must leave them unchanged",
     "regular coordinates are decided by vmon.ref.check_line (exact rational interval count, 8 eps node tolerance), not by verde",
     "analytic values compared with tolerance 16 eps (|a e| + |b n| + |c e n|); fitted gridders with 1e-9 max|value| against predict "
     "evaluated by the monitor on a shuffled 1-D list of the same points (predict itself is C03/C04's subject)",
@@ -51,6 +57,13 @@ _QUICK_FLOORS = {
     "class:grid_non_square": 1000, "class:grid_single_row_or_column": 180, "class:default_region_from_fitted_data": 600,
     "class:grid_components=2": 300, "class:grid_components=3": 300, "class:grid_gridder=Spline": 28, "class:grid_gridder=Chain": 64,
     "class:grid_gridder=Vector": 56, "class:grid_gridder=KNeighbors": 28, "class:grid_gridder=Trend": 28, "class:grid_gridder=CheckerBoard": 32,
+    # call histories on one gridder object
+    "eval:defaults_unchanged": 2600, "class:history_dims_given_then_omitted": 100, "class:history_data_names_given_then_omitted": 100,
+    "class:history_projection_given_then_omitted": 95, "class:history_region_given_then_omitted": 50,
+    "class:history_extra_coords_given_then_omitted": 95, "class:history_grid_coordinates_then_shape_or_spacing": 40,
+    "class:history_grid_pixel_register_then_default": 20, "class:history_refit_other_bounding_box": 38,
+    "class:history_coordinates_edited_in_place": 28, "class:history_identical_call_repeated_after_overwrite": 100,
+    "class:history_returned_arrays_overwritten": 440, "class:history_call_profile": 90, "class:history_call_scatter": 80,
     "class:profile_projection_affine": 110, "class:profile_projection_monotone_nonlinear": 80, "class:scatter_projection_affine": 100,
 }
 FLOORS = {"quick": dict(_QUICK_FLOORS), "thorough": {k: 20 * v for k, v in _QUICK_FLOORS.items()}}
@@ -64,8 +77,9 @@ REAL_KINDS = ["spline", "trend", "kneighbors", "chain", "chain_reduce", "vector2
 
 def plan(tier):
     if tier == "quick":
-        return collections.OrderedDict(analytic_grid=150, analytic_coords=70, analytic_profile=60, analytic_scatter=45, real=64, nested=8)
-    return collections.OrderedDict(analytic_grid=3000, analytic_coords=1400, analytic_profile=1200, analytic_scatter=900, real=1280, nested=160)
+        return collections.OrderedDict(analytic_grid=150, analytic_coords=70, analytic_profile=60, analytic_scatter=45, real=64, nested=8, history=48)
+    return collections.OrderedDict(analytic_grid=3000, analytic_coords=1400, analytic_profile=1200, analytic_scatter=900, real=1280, nested=160,
+                                   history=960)
 
 
 # ----------------------------------------------------------------------
@@ -87,6 +101,30 @@ def _same(a, b):
         return bool(np.all((a == b) | (np.isnan(a.astype("float64")) & np.isnan(b.astype("float64")))))
 
 
+class Defaults:
+    """The naming defaults of a gridder as they were *before* the judged call (or when the workload created it)."""
+
+    def __init__(self, gridder):
+        dims = getattr(gridder, "dims", ("northing", "easting"))
+        self.dims = tuple(dims) if isinstance(dims, (list, tuple)) else dims
+        self.extra_coords_name = getattr(gridder, "extra_coords_name", "extra_coord")
+        table = getattr(gridder, "data_names_defaults", None)
+        self.data_names_defaults = None if table is None else tuple(tuple(row) for row in table)
+
+    def key(self):
+        return (self.dims, self.extra_coords_name, self.data_names_defaults)
+
+
+def register(gridder, region=None):
+    """The workload records what it knows about a gridder it created: fitted bounding box and the defaults it must keep."""
+    entry = G.EXPECT.get(gridder)
+    if entry is None:
+        entry = G.EXPECT[gridder] = {"defaults": Defaults(gridder)}
+    if region is not None:
+        entry["region"] = tuple(float(v) for v in region)
+    return entry
+
+
 def expected_extra_names(gridder, n_extra):
     base = gridder.extra_coords_name
     return [base if k == 0 else "%s_%d" % (base, k) for k in range(n_extra)]
@@ -97,7 +135,7 @@ def expected_data_names(gridder, data_names, n_components):
     if data_names is not None:
         return _names(data_names)
     defaults = [("scalars",), ("east_component", "north_component"), ("east_component", "north_component", "vertical_component")]
-    table = getattr(gridder, "data_names_defaults", defaults)
+    table = getattr(gridder, "data_names_defaults", None) or defaults
     if 1 <= n_components <= len(table):
         return list(table[n_components - 1])
     return None
@@ -106,7 +144,7 @@ def expected_data_names(gridder, data_names, n_components):
 def default_region(run, gridder):
     """Bounding box of the fitted data as the *workload* computed it; the attribute only for gridders the workload did not create."""
     known = G.EXPECT.get(gridder)
-    if known is not None:
+    if known is not None and "region" in known:
         run.count("class:default_region_from_fitted_data")
         return known["region"]
     run.count("class:default_region_from_attribute")
@@ -192,7 +230,31 @@ def install(tap, run):
             out["analytic_constants"] = [list(c) for c in a["self"].consts]
         return out
 
-    def count_common(kind, gridder, projection, dims, data_names, n_components, n_extra):
+    def pre_defaults(ev):
+        return {"defaults": Defaults(ev.args["self"])}
+
+    def defaults_for(ev, kind):
+        """
+        Defaults the call must fall back to: those the workload recorded when it created the gridder, else those in place when the
+        call started. Also judges that the call left the instance's dims / extra_coords_name / data_names_defaults alone.
+        """
+        gridder = ev.args["self"]
+        before = ev.pre["defaults"] if isinstance(ev.pre, dict) and "defaults" in ev.pre else Defaults(gridder)
+        after = Defaults(gridder)
+        known = G.EXPECT.get(gridder)
+        reference = known["defaults"] if known is not None and "defaults" in known else before
+        run.evaluated("defaults_unchanged")
+        if after.key() != before.key() or after.key() != reference.key():
+            run.violation("defaults_unchanged",
+                          "%s() changed the gridder's naming defaults: dims %r -> %r, extra_coords_name %r -> %r, data_names_defaults %s"
+                          % (kind, reference.dims, after.dims, reference.extra_coords_name, after.extra_coords_name,
+                             "unchanged" if after.data_names_defaults == reference.data_names_defaults else "changed"),
+                          {"gridder": describe(gridder), "arguments": {k: repr(v)[:200] for k, v in ev.args.items() if k != "self"},
+                           "before_call": list(before.key()), "after_call": list(after.key()), "at_creation": list(reference.key())},
+                          key="defaults:changed-by-" + kind)
+        return reference
+
+    def count_common(kind, gridder, defaults, projection, dims, data_names, n_components, n_extra):
         run.count("class:%s_gridder=%s" % (kind, type(gridder).__name__))
         run.count("class:%s_components=%d" % (kind, n_components))
         run.count("class:%s_extra_coords=%d" % (kind, n_extra))
@@ -200,7 +262,7 @@ def install(tap, run):
             run.count("class:%s_projection_%s" % (kind, getattr(projection, "kind", "other")))
         if dims is not None:
             run.count("class:%s_custom_dims" % kind)
-        elif tuple(gridder.dims) != ("northing", "easting"):
+        elif tuple(defaults.dims) != ("northing", "easting"):
             run.count("class:%s_class_level_dims" % kind)
         if data_names is not None:
             run.count("class:%s_custom_data_names" % kind)
@@ -219,7 +281,8 @@ def install(tap, run):
         ds = ev.result
         witness = base_witness(ev)
         problems = []
-        dims = list(a["dims"]) if a["dims"] is not None else list(gridder.dims)
+        defaults = defaults_for(ev, "grid")
+        dims = list(a["dims"]) if a["dims"] is not None else list(defaults.dims)
         projection = a["projection"]
         given = a["coordinates"]
         extras_expected = []  # list of ("constant", value) / ("array", values)
@@ -306,7 +369,7 @@ def install(tap, run):
                 p_east, p_north = big_e, big_n
             fields = field_values(run, gridder, p_east, p_north)
             n_components = len(fields)
-            names = expected_data_names(gridder, a["data_names"], n_components)
+            names = expected_data_names(defaults, a["data_names"], n_components)
             if names is None:
                 run.count("skipped:grid_no_default_names")
                 return
@@ -333,7 +396,7 @@ def install(tap, run):
                         break
             # ---- extra coordinates
             if not problems:
-                want_names = expected_extra_names(gridder, len(extras_expected))
+                want_names = expected_extra_names(defaults, len(extras_expected))
                 got_names = [str(c) for c in ds.coords if str(c) not in (str(dims[0]), str(dims[1]))]
                 if sorted(got_names) != sorted(want_names):
                     problems.append("extra coordinates %r, expected %r" % (got_names, want_names))
@@ -356,7 +419,7 @@ def install(tap, run):
                             problems.append("variable %r does not carry the gridder's description as metadata" % (name,))
                             break
         run.evaluated("grid")
-        count_common("grid", gridder, projection, a["dims"], a["data_names"], n_components, len(extras_expected))
+        count_common("grid", gridder, defaults, projection, a["dims"], a["data_names"], n_components, len(extras_expected))
         if not problems:
             if nn == 1 or ne == 1:
                 run.count("class:grid_single_row_or_column")
@@ -390,7 +453,8 @@ def install(tap, run):
         table = ev.result
         witness = base_witness(ev)
         problems = []
-        dims = list(a["dims"]) if a["dims"] is not None else list(gridder.dims)
+        defaults = defaults_for(ev, "profile")
+        dims = list(a["dims"]) if a["dims"] is not None else list(defaults.dims)
         projection = a["projection"]
         size = int(a["size"])
         p1 = (float(a["point1"][0]), float(a["point1"][1]))
@@ -411,7 +475,7 @@ def install(tap, run):
         mag_p = max(abs(q1[0]), abs(q1[1]), abs(q2[0]), abs(q2[1])) + sep
         tol_p = 32 * EPS * mag_p + TINY
         extras = [] if kwargs.get("extra_coords") is None else [float(v) for v in np.atleast_1d(kwargs["extra_coords"])]
-        extra_names = expected_extra_names(gridder, len(extras))
+        extra_names = expected_extra_names(defaults, len(extras))
         n_components = 0
         if not isinstance(table, pd.DataFrame):
             problems.append("result is not a pandas.DataFrame")
@@ -458,7 +522,7 @@ def install(tap, run):
                         slope = max(float(np.nanmax(np.abs(m[0] - b[0]))) for m, b in zip(moved, base)) / step
                     fields = [(v, tol + 4 * slope * tol_p) for v, tol in fields]
                 n_components = len(fields)
-                names = expected_data_names(gridder, a["data_names"], n_components)
+                names = expected_data_names(defaults, a["data_names"], n_components)
                 if names is None:
                     run.count("skipped:profile_no_default_names")
                     return
@@ -478,7 +542,7 @@ def install(tap, run):
                         if not bool(np.all(table[name].to_numpy() == value)):
                             problems.append("extra coordinate column %r is not the constant %r" % (name, value))
         run.evaluated("profile")
-        count_common("profile", gridder, projection, a["dims"], a["data_names"], n_components, len(extras))
+        count_common("profile", gridder, defaults, projection, a["dims"], a["data_names"], n_components, len(extras))
         if size >= 2 and sep > 0 and q1[0] != q2[0] and q1[1] != q2[1]:
             run.mark_nontrivial("profile", describe(gridder), p1, p2, size, dims, a["data_names"], witness["projection"])
         for problem in problems[:1]:
@@ -489,11 +553,14 @@ def install(tap, run):
     # ------------------------------------------------------------------
     def pre_scatter(ev):
         state = ev.args.get("random_state")
+        out = pre_defaults(ev)
         if isinstance(state, np.random.RandomState):
-            return ("state", state.get_state())
-        if isinstance(state, (int, np.integer)):
-            return ("seed", int(state))
-        return ("unknown", None)
+            out["random"] = ("state", state.get_state())
+        elif isinstance(state, (int, np.integer)):
+            out["random"] = ("seed", int(state))
+        else:
+            out["random"] = ("unknown", None)
+        return out
 
     def post_scatter(ev):
         a = ev.args
@@ -507,7 +574,8 @@ def install(tap, run):
         witness = base_witness(ev)
         witness["random_state"] = repr(a["random_state"])[:80]
         problems = []
-        dims = list(a["dims"]) if a["dims"] is not None else list(gridder.dims)
+        defaults = defaults_for(ev, "scatter")
+        dims = list(a["dims"]) if a["dims"] is not None else list(defaults.dims)
         projection = a["projection"]
         size = int(a["size"])
         region = a["region"]
@@ -518,8 +586,8 @@ def install(tap, run):
         w, e, s, n = (float(v) for v in region)
         witness["region_used_by_oracle"] = [w, e, s, n]
         extras = [] if kwargs.get("extra_coords") is None else [float(v) for v in np.atleast_1d(kwargs["extra_coords"])]
-        extra_names = expected_extra_names(gridder, len(extras))
-        kind, payload = ev.pre if ev.pre is not None else ("unknown", None)
+        extra_names = expected_extra_names(defaults, len(extras))
+        kind, payload = ev.pre["random"] if isinstance(ev.pre, dict) and "random" in ev.pre else ("unknown", None)
         n_components = 0
         if not isinstance(table, pd.DataFrame):
             problems.append("result is not a pandas.DataFrame")
@@ -558,7 +626,7 @@ def install(tap, run):
                     p_east, p_north = east_out, north_out
                 fields = field_values(run, gridder, p_east, p_north)
                 n_components = len(fields)
-                names = expected_data_names(gridder, a["data_names"], n_components)
+                names = expected_data_names(defaults, a["data_names"], n_components)
                 if names is None:
                     run.count("skipped:scatter_no_default_names")
                     return
@@ -578,7 +646,7 @@ def install(tap, run):
                         if not bool(np.all(table[name].to_numpy() == value)):
                             problems.append("extra coordinate column %r is not the constant %r" % (name, value))
         run.evaluated(monitor)
-        count_common("scatter", gridder, projection, a["dims"], a["data_names"], n_components, len(extras))
+        count_common("scatter", gridder, defaults, projection, a["dims"], a["data_names"], n_components, len(extras))
         if size >= 2:
             run.mark_nontrivial("scatter", describe(gridder), [w, e, s, n], size, witness["random_state"], dims, a["data_names"],
                                 witness["projection"])
@@ -586,8 +654,8 @@ def install(tap, run):
             witness["result"] = table
             run.violation(monitor, problem, witness, key="scatter:" + problem.split(" ")[0])
 
-    tap.method(BaseGridder, "grid", post=post_grid)
-    tap.method(BaseGridder, "profile", post=post_profile)
+    tap.method(BaseGridder, "grid", post=post_grid, pre=pre_defaults)
+    tap.method(BaseGridder, "profile", post=post_profile, pre=pre_defaults)
     tap.method(BaseGridder, "scatter", post=post_scatter, pre=pre_scatter)
     if "scatter" not in vars(verde.synthetic.CheckerBoard):  # pragma: no cover - the override disappeared
         run.note_inconclusive("CheckerBoard no longer overrides scatter")
@@ -602,7 +670,9 @@ def new_analytic(rng, scale, n_components=None, variant=None):
         n_components = int(rng.choice([1, 1, 2, 3]))
     if variant is None:
         variant = str(rng.choice(["default", "default", "latlon", "yx"]))
-    return classes[variant](consts=G.gen_consts(rng, n_components, scale)), n_components
+    gridder = classes[variant](consts=G.gen_consts(rng, n_components, scale))
+    register(gridder)  # the naming defaults every later call must fall back to
+    return gridder, n_components
 
 
 def run_case(run, tap, stream, index, rng):
@@ -623,6 +693,8 @@ def run_case(run, tap, stream, index, rng):
             _stream_real(run, rng, vd, REAL_KINDS[index % len(REAL_KINDS)])
         elif stream == "nested":
             _stream_nested(run, rng, vd)
+        elif stream == "history":
+            _stream_history(run, rng, vd, HISTORY_KINDS[index % len(HISTORY_KINDS)])
 
 
 def _stream_analytic_grid(run, rng):
@@ -634,7 +706,7 @@ def _stream_analytic_grid(run, rng):
     pts_e = np.concatenate([[w, e], rng.uniform(w, e, 20)])
     pts_n = np.concatenate([rng.uniform(s, n, 20), [s, n]])
     gridder.fit((pts_e, pts_n), None)
-    G.EXPECT[gridder] = {"region": (float(pts_e.min()), float(pts_e.max()), float(pts_n.min()), float(pts_n.max()))}
+    register(gridder, (pts_e.min(), pts_e.max(), pts_n.min(), pts_n.max()))
     for _ in range(14):
         kwargs = G.gen_grid_spec(rng, region)
         kwargs.update(G.gen_names(rng, n_comp))
@@ -738,7 +810,7 @@ def _stream_analytic_scatter(run, rng):
     pts_e = np.concatenate([[w, e], rng.uniform(w, e, 5)])
     pts_n = np.concatenate([rng.uniform(s, n, 5), [s, n]])
     gridder.fit((pts_e, pts_n), None)
-    G.EXPECT[gridder] = {"region": (float(pts_e.min()), float(pts_e.max()), float(pts_n.min()), float(pts_n.max()))}
+    register(gridder, (pts_e.min(), pts_e.max(), pts_n.min(), pts_n.max()))
     for _ in range(8):
         kwargs = G.gen_names(rng, n_comp)
         kwargs["size"] = int(rng.choice([1, 2, 7, 30, 120]))
@@ -803,7 +875,7 @@ def fit_real(rng, vd, kind):
                                   w_north=(n - s) / float(rng.uniform(2.4, 4.1)))
     else:
         raise ValueError(kind)
-    G.EXPECT[gridder] = {"region": bbox}
+    register(gridder, bbox)
     return gridder, bbox, n_comp
 
 
@@ -867,10 +939,200 @@ def _stream_nested(run, rng, vd):
         vd.project_grid(array, projection, method=method, antialias=bool(rng.random() < 0.5))
         run.count("nested:project_grid")
     board = vd.synthetic.CheckerBoard(region=(0.0, 4000.0, -3000.0, 0.0), w_east=1700.0, w_north=900.0)
-    G.EXPECT[board] = {"region": (0.0, 4000.0, -3000.0, 0.0)}
+    register(board, (0.0, 4000.0, -3000.0, 0.0))
     board.grid(shape=(6, 9))
     board.scatter(size=25, random_state=int(rng.integers(0, 1000)))
     board.profile((100.0, -2500.0), (3900.0, -200.0), 15)
+
+
+HISTORY_KINDS = ["analytic", "analytic", "spline", "analytic", "trend", "analytic", "chain", "analytic"]
+HISTORY_OPTIONS = ["dims", "data_names", "projection", "region", "extra_coords"]
+GRID_MODES = ["shape", "coordinates_1d", "spacing_adjust_region", "shape_pixel", "coordinates_2d", "spacing_adjust_spacing", "spacing_pixel"]
+
+
+def _overwrite_returned(run, result):
+    """Scribble over everything a call returned: a cached buffer handed out twice would carry this into the next result."""
+    import pandas as pd
+    import xarray as xr
+
+    if isinstance(result, xr.Dataset):
+        for name in list(result.data_vars) + [c for c in result.coords if result.coords[c].ndim == 2]:
+            try:
+                result[name].values[...] = -9.25e4
+            except ValueError:
+                run.count("observed:returned_array_read_only")
+        for name in [c for c in result.coords if result.coords[c].ndim == 1]:
+            values = result.coords[name].values
+            if values.flags.writeable:
+                values[...] = 4.5e6
+    elif isinstance(result, pd.DataFrame):
+        for name in result.columns:
+            values = result[name].to_numpy()
+            if values.flags.writeable:
+                values[...] = -7.75e3
+        result.iloc[:, :] = -7.75e3
+    run.count("class:history_returned_arrays_overwritten")
+
+
+def _stream_history(run, rng, vd, kind):
+    """
+    ONE gridder object, a sequence of grid / profile / scatter calls in which every optional argument is given in some calls and
+    omitted in the next ones, with refits on data of another bounding box in between, explicit coordinate arrays edited in place
+    between calls and every returned array overwritten before the next call. Each return is judged against its own arguments.
+    """
+    region, scale = G.gen_region(rng)
+    if kind != "analytic":
+        extent = gen.log_uniform(rng, 1e-1, 1e5)
+        west, south = float(rng.choice([0.0, 1.0, -30.0])) * extent, float(rng.choice([0.0, -1.0, 30.0])) * extent
+        region = (west, west + extent * float(rng.uniform(0.5, 2.0)), south, south + extent * float(rng.uniform(0.5, 2.0)))
+        scale = extent
+
+    def make():
+        mindist = scale * 1e-3
+        if kind == "analytic":
+            return new_analytic(rng, scale)
+        if kind == "spline":
+            gridder = vd.Spline(damping=1e-3, mindist=mindist)
+        elif kind == "trend":
+            gridder = vd.Trend(degree=2)
+        else:
+            gridder = vd.Chain([("trend", vd.Trend(degree=1)), ("spline", vd.Spline(damping=1e-3, mindist=mindist))])
+        register(gridder)
+        return gridder, 1
+
+    def fit(gridder, box):
+        w, e, s, n = box
+        pts_e = np.concatenate([[w, e], rng.uniform(w, e, 26)])
+        pts_n = np.concatenate([rng.uniform(s, n, 26), [s, n]])
+        gridder.fit((pts_e, pts_n), gen.smooth_field(rng, pts_e, pts_n, amplitude=gen.log_uniform(rng, 1e-1, 1e3)))
+        register(gridder, (pts_e.min(), pts_e.max(), pts_n.min(), pts_n.max()))
+
+    def projection_for(box):
+        if kind == "analytic":
+            return G.gen_projection(rng, box)
+        w, e, s, n = box
+        return G.Affine(1.0, float(rng.uniform(-0.3, 0.3)), float(rng.uniform(-0.3, 0.3)), float(rng.uniform(0.6, 1.4)), 0.05 * (e - w), -0.05 * (n - s))
+
+    gridder, n_comp = make()
+    fit(gridder, region)
+    given = dict.fromkeys(HISTORY_OPTIONS, False)
+    mode_at = int(rng.integers(0, len(GRID_MODES)))
+    last_mode = None
+    # persistent explicit coordinates (the same ndarray objects for the whole history)
+    nn, ne = G.gen_shape(rng, lo=3)
+    nn, ne = max(nn, 3), max(ne, 3)
+    if kind != "analytic":
+        nn, ne = min(nn, 9), min(ne, 9)
+    e_vec, n_vec = G.gen_axis(rng, ne, region[0], region[1]), G.gen_axis(rng, nn, region[2], region[3])
+    extra_arr = G.encode_extra(0, (nn, ne))
+    mesh = list(G.broadcast_mesh(e_vec, n_vec))
+    used_coordinates = False
+    last_applied = {}
+    for step in range(18):
+        if step in (6, 12):
+            # refit the SAME object on data with another bounding box: the default region must follow the latest fit
+            w, e, s, n = region
+            region = (w + 0.37 * (e - w), e + 0.83 * (e - w), s - 1.21 * (n - s), n - 0.29 * (n - s))
+            fit(gridder, region)
+            given["region"] = True  # so that the flip below omits it right after the refit
+            run.count("class:history_refit_other_bounding_box")
+        for option in HISTORY_OPTIONS:
+            if option == "region" and step in (6, 12):
+                given[option] = False
+            elif rng.random() < 0.6:
+                given[option] = not given[option]
+        method = str(rng.choice(["grid", "grid", "profile", "scatter"]))
+        w, e, s, n = region
+        kwargs = {}
+        names = G.gen_names(rng, n_comp)
+        if given["dims"]:
+            dims = G.DIM_CHOICES[int(rng.integers(0, len(G.DIM_CHOICES)))]
+            kwargs["dims"] = list(dims) if rng.random() < 0.5 else tuple(dims)
+        if given["data_names"]:
+            chosen = [str(v) for v in rng.choice(G.NAME_POOL, size=n_comp, replace=False)]
+            kwargs["data_names"] = chosen if (n_comp > 1 or rng.random() < 0.5) else chosen[0]
+        del names
+        sub = [w + 0.11 * (e - w), e - 0.07 * (e - w), s + 0.23 * (n - s), n + 0.31 * (n - s)]
+        if given["projection"]:
+            kwargs["projection"] = projection_for(region)
+        if method == "grid":
+            mode = GRID_MODES[mode_at % len(GRID_MODES)]
+            mode_at += 1
+            if mode.startswith("coordinates"):
+                if used_coordinates:
+                    # edit the SAME arrays in place: new interior nodes between the same end points, or the mirrored axis
+                    if rng.random() < 0.5:
+                        e_vec[1:-1] = G.gen_axis(rng, ne, e_vec[0], e_vec[-1])[1:-1] if e_vec[0] < e_vec[-1] else \
+                            G.gen_axis(rng, ne, e_vec[-1], e_vec[0])[::-1][1:-1]
+                        n_vec[1:-1] = np.sort(rng.uniform(min(n_vec[0], n_vec[-1]), max(n_vec[0], n_vec[-1]), nn - 2))[::(1 if n_vec[0] < n_vec[-1] else -1)]
+                    else:
+                        e_vec[:] = e_vec[::-1].copy()
+                        n_vec[:] = n_vec[::-1].copy()
+                    extra_arr[...] = extra_arr[::-1, ::-1].copy() - 3.0
+                    fresh = G.broadcast_mesh(e_vec, n_vec)
+                    mesh[0][...] = fresh[0]
+                    mesh[1][...] = fresh[1]
+                    run.count("class:history_coordinates_edited_in_place")
+                used_coordinates = True
+                coordinates = (e_vec, n_vec) if mode == "coordinates_1d" else (mesh[0], mesh[1])
+                if given["extra_coords"]:
+                    coordinates = coordinates + (extra_arr,)
+                kwargs["coordinates"] = coordinates
+            else:
+                if mode.startswith("shape"):
+                    kwargs["shape"] = G.gen_shape(rng) if kind == "analytic" else tuple(min(v, 9) for v in G.gen_shape(rng))
+                else:
+                    kwargs["spacing"] = (float((n - s) / rng.uniform(1.5, 9)), float((e - w) / rng.uniform(1.5, 9)))
+                    if "adjust" in mode:
+                        kwargs["adjust"] = mode.rsplit("_", 1)[1]
+                if mode.endswith("pixel"):
+                    kwargs["pixel_register"] = True
+                if given["region"]:
+                    kwargs["region"] = sub
+                if given["extra_coords"]:
+                    kwargs["extra_coords"] = [11.5, -3.25] if rng.random() < 0.5 else 42.0
+            if last_mode is not None and last_mode.startswith("coordinates") and not mode.startswith("coordinates"):
+                run.count("class:history_grid_coordinates_then_shape_or_spacing")
+            if last_mode is not None and last_mode.endswith("pixel") and not mode.endswith("pixel") and not mode.startswith("coordinates"):
+                run.count("class:history_grid_pixel_register_then_default")
+            last_mode = mode
+            call = lambda: gridder.grid(**kwargs)  # noqa: E731
+        elif method == "profile":
+            p1, p2 = gen_profile_points(rng, region)
+            if given["extra_coords"]:
+                kwargs["extra_coords"] = 7.5
+            size = int(rng.choice([2, 6, 15]))
+            call = lambda: gridder.profile(p1, p2, size, **kwargs)  # noqa: E731
+        else:
+            if given["region"]:
+                kwargs["region"] = sub
+            if given["extra_coords"]:
+                kwargs["extra_coords"] = [1.5, -2.25]
+            size, seed = int(rng.choice([3, 12, 40])), int(rng.integers(0, 2 ** 31 - 1))
+            call = lambda: gridder.scatter(size=size, random_state=seed, **kwargs)  # noqa: E731
+        result = call()
+        if rng.random() < 0.3:
+            # the identical call again after the first result was scribbled over: a buffer cached and handed out twice shows here
+            _overwrite_returned(run, result)
+            result = call()
+            run.count("class:history_identical_call_repeated_after_overwrite")
+        # which options this call could take and whether it was given them (None = not applicable to this call)
+        explicit = "coordinates" in kwargs
+        applied = {"dims": "dims" in kwargs, "data_names": "data_names" in kwargs, "projection": "projection" in kwargs,
+                   "region": None if (method == "profile" or explicit) else "region" in kwargs,
+                   "extra_coords": len(kwargs["coordinates"]) > 2 if explicit else "extra_coords" in kwargs}
+        for option, now in applied.items():
+            if now is None:
+                continue
+            if last_applied.get(option) and not now:
+                run.count("class:history_%s_given_then_omitted" % option)
+            last_applied[option] = now
+        run.count("class:history_call_%s" % method)
+        _overwrite_returned(run, result)
+    run.count("class:history_gridder=" + kind)
+    run.sample("history:" + kind, {"gridder": repr(gridder)[:300], "calls": 18, "final_default_region": list(region),
+                                   "last_call": {k: (v.describe() if hasattr(v, "describe") else (repr(v)[:120] if k == "coordinates" else v))
+                                                 for k, v in kwargs.items()}})
 
 
 LEVEL_TEXT = (
